@@ -41,7 +41,21 @@ def build(tier, seed):
     tasks.append(Task(f"{PROP}.S.casefold", PROP, "keyword tests on captured text", lambda: casefold.obligations(PROP, "ford.sourceform", _replay)))
     tasks.append(Task(f"{PROP}.S.casefold.names", PROP, "comparisons of entity names", lambda: casefold.name_obligations(PROP, replay=_replay)))
     tasks.append(Task(f"{PROP}.S.casefold.attribs", PROP, "attribute membership tests", lambda: casefold.attribute_obligations(PROP, replay=_replay)))
+    tasks.append(Task(f"{PROP}.S.casefold.prefix", PROP, "keyword prefix tests", lambda: casefold.prefix_obligations(PROP, replay=_replay)))
     tasks.append(Task(f"{PROP}.S.operands", PROP, "operand list splitting", lambda: operands.obligations(PROP, _replay)))
+    def _defaults():
+        from contracts import plumbing
+        from bounded import c01
+        return plumbing.mutable_defaults_not_shared(PROP, ("ford.sourceform",), c01.implicit_attributes)
+    tasks.append(Task(f"{PROP}.S.default_not_shared", PROP, "mutable default arguments", _defaults))
+    def _host():
+        from contracts import scoping
+        from bounded import c01
+        c = scoping.host_block(PROP)
+        c.search_fn = c01.shadowed_members
+        return c
+    _host.__name__ = "host_block"
+    tasks.append(a_task(PROP, _host))
     tasks.append(bounded_task())
     meta = {
         "trusted_base": TRUSTED_BASE,
@@ -54,6 +68,9 @@ def build(tier, seed):
             "re.sub call-site obligations are syntactic: a replacement built from the `strings`/`capture_strings` lists must be a callable or have its backslashes doubled",
         ],
         "functions_under_contract": fn_meta([("ford.utils", "paren_split", None), ("ford.utils", "get_parens", None)]) +
+        fn_meta([("ford.sourceform", "FortranCodeUnit.correlate", "block contract (host association): statements from the first `self.all_procs...` up to `if isinstance(self, FortranSubmodule)`: "
+                  "all_vars = host table, host dummies and result, overlaid by the unit's own variables")]) +
+        [{"parameters": "every parameter with a mutable default in ford/sourceform.py (not kept, not mutated)"}] +
         [{"constants": "every regex of the dispatch cascade of FortranContainer.__init__, read from the if/elif chain on every run"},
          {"call_sites": "re.sub / Pattern.sub with source-derived replacements in ford/sourceform.py"},
          {"call_sites": "comparisons of regex-captured text with keyword literals in ford/sourceform.py (case fold required)"},
